@@ -38,7 +38,8 @@ ASSUMPTIONS = [
     "user class_check predicates are total and side-effect free",
 ]
 REPORT_COUNTERS = ["pairs_subclasscheck", "pairs_dispatch", "pairs_dispatch_two_parameters", "dispatch_retried_after_transient_hook_fault", "law_transitive", "law_issubclass",
-                   "law_covariance", "deferred_before_import", "deferred_after_import", "late_registration_checked"]
+                   "law_covariance", "deferred_before_import", "deferred_after_import", "late_registration_checked",
+                   "deferred_submodule_imported_late"]
 
 CLOSED_HEADS = {"U", "I", "S", "H"}  # meanings closed under subclassing (with class atoms)
 
@@ -48,7 +49,7 @@ def plan(tier):
     return {"cases": n, "params": {"ntypes": 40 if tier == "quick" else 60},
             "timeout_s": 900 if tier == "quick" else 3600,
             "min": {"pairs_subclasscheck": 50_000, "pairs_dispatch": 50_000, "pairs_dispatch_two_parameters": 50_000, "depth2_types": 2_000,
-                    "law_covariance": 500, "deferred_after_import": 200}}
+                    "law_covariance": 500, "deferred_after_import": 200, "deferred_submodule_imported_late": 20}}
 
 
 def _closed(tx):
@@ -75,8 +76,9 @@ def gen_case(rng, params, idx):
         dmod = gen.fresh_deferred_module(f"c13_{idx}_", package=pkg)
         # in a package the class may be named through its defining submodule, a re-exporting one, or the package
         paths = {"Thing": ["base.Thing", "api.Thing", "Thing"], "Sub": ["impl.Sub", "api.Sub", "Sub"],
-                 "Other": ["base.Other", "api.Other"]}
-        for cname in rng.sample(["Thing", "Sub", "Other"], 2):
+                 "Other": ["base.Other", "api.Other"], "Lazy": ["extra.Lazy"]}
+        # (Lazy lives in a submodule that the package does not import by itself)
+        for cname in rng.sample(["Thing", "Sub", "Other"] + (["Lazy", "Lazy"] if pkg else []), 2):
             d = ["Df", f"{dmod}.{rng.choice(paths[cname]) if pkg else cname}"]
             types.append(d)
             types.append([rng.choice(["U", "I"]), d, rng.choice(atoms)])
@@ -126,6 +128,7 @@ def check_case(spec, res):
         built.append((tx, A, N, o, o2))
 
     dclasses = []
+    lazy_mod = None
     if spec.get("dmod"):
         import sys
         pre = spec["dmod"] in sys.modules
@@ -140,83 +143,95 @@ def check_case(spec, res):
                             res.violation("deferred-before-import", ["Df", cn], spec,
                                           observed=True, acceptable=False)
         mod = importlib.import_module(spec["dmod"])
-        dclasses = [(f"{spec['dmod']}.{n}", getattr(mod, n)) for n in ("Thing", "Sub", "Other")]
+        dclasses = [(f"{spec['dmod']}.{n}", getattr(mod, n)) for n in ("Thing", "Sub", "Other", "Root") if hasattr(mod, n)]
+        if hasattr(mod, "Root"):
+            lazy_mod = spec["dmod"] + ".extra"
 
-    for tx, A, N, o, o2 in built:
-        if T.depth(tx) >= 2:
-            res.count("depth2_types")
-            res.nontrivial([rel, T.tname(tx)])
-        hs = T.heads(tx)
-        for h in hs:
-            res.count(f"head_{h}")
-        # l1 reflexive
-        res.ev()
-        try:
-            r = subclasscheck(N, N)
-        except Exception as e:  # noqa: BLE001
-            r = ("EXC", type(e).__name__)
-        if r is not True:
-            res.violation("reflexive", [T.tname(tx) if T.depth(tx) < 2 else sorted(hs)], spec,
-                          observed=r, acceptable=True, note=T.tname(tx))
-        got_cache = {}
-        for cn, C in corpus + dclasses:
-            exp = T.cls_sat(tx, env, C)
-            # m1
+    def per_type(classes):
+        for tx, A, N, o, o2 in built:
+            if T.depth(tx) >= 2:
+                res.count("depth2_types")
+                res.nontrivial([rel, T.tname(tx)])
+            hs = T.heads(tx)
+            for h in hs:
+                res.count(f"head_{h}")
+            # l1 reflexive
             res.ev()
-            res.count("pairs_subclasscheck")
-            if "Df" in hs and dclasses:
-                res.count("deferred_after_import")
             try:
-                got = subclasscheck(C, N)
+                r = subclasscheck(N, N)
             except Exception as e:  # noqa: BLE001
-                got = ("EXC", type(e).__name__, str(e)[:60])
-            got_cache[cn] = got
-            if got is not exp and got != exp:
-                res.violation("meaning-vs-subclasscheck", [sorted(hs), exp], spec,
-                              observed={"type": T.tname(tx), "class": cn, "subclasscheck": got},
-                              acceptable=exp)
-            # m2 through a real dispatch
-            if C is type(None):
-                inst = None
-            else:
-                inst = C()
-            res.ev()
-            res.count("pairs_dispatch")
-            if ("CC" in hs or "Hook" in T.tname(tx)) and (len(got_cache) % 3 == 0):
-                # history: the *first* lookup of this class is interrupted once by a failing user hook / predicate
-                # (a transient fault); the retry must then see the documented meaning, not a left-over
-                env.predlog.fault_at, env.predlog.fault_count = 1, 0
-                first = outcome(lambda: o(inst), vf)
-                env.predlog.fault_at = None
-                if first[0] == "exc" and first[1] == "HookFault":
-                    res.count("dispatch_retried_after_transient_hook_fault")
-            out = outcome(lambda: o(inst), vf)
-            ran_T = out[0] == "ran" and out[1] == (1,)
-            ran_any = out[0] == "ran" and out[1] == (0,)
-            if not (ran_T or ran_any) or ran_T != exp:
-                res.violation("meaning-vs-dispatch", [sorted(hs), exp, out[0]], spec,
-                              observed={"type": T.tname(tx), "class": cn, "outcome": list(map(str, out))[:3]},
-                              acceptable="T-method runs" if exp else "catch-all runs")
-            # m3: first of two parameters, no catch-all: the method runs exactly when the class satisfies the type
-            res.count("pairs_dispatch_two_parameters")
-            out2 = outcome(lambda: o2(inst, 1), vf)
-            ran2 = out2[0] == "ran" and out2[1] == (2,)
-            if (ran2 if not exp else not ran2) or (not exp and out2[0] not in ("none", "bind")):
-                res.violation("meaning-vs-dispatch-two-parameters", [sorted(hs), exp, out2[0]], spec,
-                              observed={"type": T.tname(tx), "class": cn, "outcome": list(map(str, out2))[:3]},
-                              acceptable="the method runs" if exp else "no applicable method")
-        # l2 transitivity (closed meanings only)
-        if _closed(tx):
-            allc = corpus + dclasses
-            for an, a in allc:
-                for bn, b in allc:
-                    if a is not b and issubclass(a, b) and got_cache[bn] is True:
-                        res.ev()
-                        res.count("law_transitive")
-                        if got_cache[an] is not True:
-                            res.violation("transitive", [sorted(hs)], spec,
-                                          observed={"a": an, "b": bn, "T": T.tname(tx), "sc(a,T)": got_cache[an]},
-                                          acceptable=True)
+                r = ("EXC", type(e).__name__)
+            if r is not True:
+                res.violation("reflexive", [T.tname(tx) if T.depth(tx) < 2 else sorted(hs)], spec,
+                              observed=r, acceptable=True, note=T.tname(tx))
+            got_cache = {}
+            for cn, C in classes:
+                exp = T.cls_sat(tx, env, C)
+                # m1
+                res.ev()
+                res.count("pairs_subclasscheck")
+                if "Df" in hs and dclasses:
+                    res.count("deferred_after_import")
+                try:
+                    got = subclasscheck(C, N)
+                except Exception as e:  # noqa: BLE001
+                    got = ("EXC", type(e).__name__, str(e)[:60])
+                got_cache[cn] = got
+                if got is not exp and got != exp:
+                    res.violation("meaning-vs-subclasscheck", [sorted(hs), exp], spec,
+                                  observed={"type": T.tname(tx), "class": cn, "subclasscheck": got},
+                                  acceptable=exp)
+                # m2 through a real dispatch
+                if C is type(None):
+                    inst = None
+                else:
+                    inst = C()
+                res.ev()
+                res.count("pairs_dispatch")
+                if ("CC" in hs or "Hook" in T.tname(tx)) and (len(got_cache) % 3 == 0):
+                    # history: the *first* lookup of this class is interrupted once by a failing user hook / predicate
+                    # (a transient fault); the retry must then see the documented meaning, not a left-over
+                    env.predlog.fault_at, env.predlog.fault_count = 1, 0
+                    first = outcome(lambda: o(inst), vf)
+                    env.predlog.fault_at = None
+                    if first[0] == "exc" and first[1] == "HookFault":
+                        res.count("dispatch_retried_after_transient_hook_fault")
+                out = outcome(lambda: o(inst), vf)
+                ran_T = out[0] == "ran" and out[1] == (1,)
+                ran_any = out[0] == "ran" and out[1] == (0,)
+                if not (ran_T or ran_any) or ran_T != exp:
+                    res.violation("meaning-vs-dispatch", [sorted(hs), exp, out[0]], spec,
+                                  observed={"type": T.tname(tx), "class": cn, "outcome": list(map(str, out))[:3]},
+                                  acceptable="T-method runs" if exp else "catch-all runs")
+                # m3: first of two parameters, no catch-all: the method runs exactly when the class satisfies the type
+                res.count("pairs_dispatch_two_parameters")
+                out2 = outcome(lambda: o2(inst, 1), vf)
+                ran2 = out2[0] == "ran" and out2[1] == (2,)
+                if (ran2 if not exp else not ran2) or (not exp and out2[0] not in ("none", "bind")):
+                    res.violation("meaning-vs-dispatch-two-parameters", [sorted(hs), exp, out2[0]], spec,
+                                  observed={"type": T.tname(tx), "class": cn, "outcome": list(map(str, out2))[:3]},
+                                  acceptable="the method runs" if exp else "no applicable method")
+            # l2 transitivity (closed meanings only)
+            if _closed(tx):
+                allc = classes
+                for an, a in allc:
+                    for bn, b in allc:
+                        if a is not b and issubclass(a, b) and got_cache[bn] is True:
+                            res.ev()
+                            res.count("law_transitive")
+                            if got_cache[an] is not True:
+                                res.violation("transitive", [sorted(hs)], spec,
+                                              observed={"a": an, "b": bn, "T": T.tname(tx), "sc(a,T)": got_cache[an]},
+                                              acceptable=True)
+
+    per_type(corpus + dclasses)
+    if lazy_mod:
+        # a class of a submodule that nothing had imported while the pairs above were decided (the package's own
+        # __init__ does not import it): now it is imported, and its class must satisfy the type that names it
+        Lazy = importlib.import_module(lazy_mod).Lazy
+        dclasses.append((lazy_mod + '.Lazy', Lazy))
+        res.count('deferred_submodule_imported_late')
+        per_type([dclasses[-1]])
 
     # l3 issubclass on plain classes
     plain = corpus + [(n, env.cls(n)) for n in ("HasFly", "Shape", "Hook")] + dclasses
